@@ -293,6 +293,32 @@ def run(scn, sb):
             viol.append({'cls': c_, 'detail': '%s; file %s' % (d, json.dumps(f))})
         check_untouched('clean run')
         res['probes']['outcome_' + cls] = 1
+        # ---- the product validated again, into its own directory (same simulated second unless the clock plan moves):
+        # it is now the INPUT and must survive, whatever the second run decides to write
+        if out[0] == 'ok' and out[1][0] is not None and scn['use_output_dir'] and os.path.exists(str(out[1][0])):
+            from cell_type_mapper.validation.validate_h5ad import validate_h5ad
+            from cell_type_mapper.gene_id.gene_id_mapper import GeneIdMapper
+            prod = str(out[1][0])
+            psha = harness.file_sha(prod)
+            o2 = drivers.outcome_of(validate_h5ad, h5ad_path=prod,
+                                    gene_id_mapper=GeneIdMapper.from_mouse() if scn['explicit_mapper'] else None,
+                                    tmp_dir=sb.p('scratch'), layer='X', round_to_int=scn['round_to_int'],
+                                    expected_max=None, output_dir=os.path.dirname(prod))
+            res['evaluations'] += 1
+            res['probes']['product_validated_again'] = 1
+            if not os.path.exists(prod):
+                viol.append({'cls': 'input-deleted', 'detail': 'the validated file %s, validated again into its own '
+                             'directory, no longer exists (second run: %s)' % (os.path.basename(prod), o2[0])})
+            elif harness.file_sha(prod) != psha:
+                viol.append({'cls': 'input-modified', 'detail': 'the validated file %s, validated again into its own '
+                             'directory, was overwritten (second run: %s)' % (os.path.basename(prod), o2[0])})
+            if o2[0] == 'ok' and o2[1][0] is not None and os.path.abspath(str(o2[1][0])) != os.path.abspath(prod) \
+                    and os.path.exists(str(o2[1][0])):
+                os.unlink(str(o2[1][0]))
+            left = sb.listing('scratch')
+            if left:
+                viol.append({'cls': 'scratch-not-empty', 'detail': 'second validation: left in scratch: %r'
+                             % (sorted(left)[:5],)})
         res['keys'].append(fkey)
         # ---- one run per write event
         only = scn.get('only_k')
